@@ -113,6 +113,10 @@ pub struct Scenario {
     /// forms, 3 = short options after the FILE arguments
     #[serde(default)]
     pub flag_style: u8,
+    /// soft and hard RLIMIT_NOFILE of the child (0 = inherited): a tool that reads its inputs one
+    /// after the other needs a handful of descriptors however many FILE arguments it gets
+    #[serde(default)]
+    pub nofile_limit: u32,
 }
 
 #[derive(Clone, Debug, Serialize, Deserialize)]
@@ -712,6 +716,19 @@ pub fn execute(sc: &Scenario, bins: &Bins, dir: &Path) -> RunResult {
         .stdin(Stdio::from(std::fs::File::open(dir.join("stdin.txt")).unwrap()))
         .stdout(Stdio::from(std::fs::File::create(dir.join("out.bin")).unwrap()))
         .stderr(Stdio::from(std::fs::File::create(dir.join("err.txt")).unwrap()));
+    if sc.nofile_limit > 0 {
+        use std::os::unix::process::CommandExt;
+        let n = sc.nofile_limit as libc::rlim_t;
+        unsafe {
+            cmd.pre_exec(move || {
+                let lim = libc::rlimit { rlim_cur: n, rlim_max: n };
+                if libc::setrlimit(libc::RLIMIT_NOFILE, &lim) != 0 {
+                    return Err(std::io::Error::last_os_error());
+                }
+                Ok(())
+            });
+        }
+    }
     if let Some(t) = &sc.term {
         cmd.env("TERM", t);
     }
@@ -1148,6 +1165,18 @@ pub fn generate(seed: u64, cfg: &GenCfg) -> Scenario {
         let name = if i == 0 { base.to_string() } else { format!("{base}{i}") };
         files.push((name, gen_lines(&mut rng)));
     }
+    let mut nofile_limit = 0u32;
+    if !cfg.small && !many && rng.chance(1, 30) {
+        // dozens of small inputs under a low descriptor limit
+        files.clear();
+        for i in 0..rng.range(20, 50) {
+            let n = rng.below(4);
+            let lines: Vec<String> = (0..n).map(|_| gen_line(&mut rng, &patterns, false, None)).collect();
+            files.push((format!("f{i:03}.txt"), lines));
+        }
+        nofile_limit = 12;
+    }
+    let nfiles = files.len();
     let stdin_lines = if nfiles == 0 { gen_lines(&mut rng) } else { vec![] };
     let dup_file = files.len() >= 1 && rng.chance(1, 12);
     let color = *rng.pick(&[Color::Default, Color::Never, Color::Always, Color::Always, Color::Always, Color::Auto]);
@@ -1171,6 +1200,7 @@ pub fn generate(seed: u64, cfg: &GenCfg) -> Scenario {
         pat_file_layout: if rng.chance(1, 3) { rng.below(8) as u8 } else { 0 },
         p_layout: if rng.chance(1, 4) { rng.below(4) as u8 } else { 0 },
         flag_style: if rng.chance(1, 3) { rng.below(4) as u8 } else { 0 },
+        nofile_limit,
     };
     if dup_file && mode != Mode::Hard {
         // the same file given twice (not with hard faults: the relaxed oracle identifies the
@@ -1425,6 +1455,7 @@ pub fn minimise(sc: &Scenario, class: &str, bins: &Bins, dir: &Path, known_crlf:
                 5 => {
                     c.pat_file_layout = 0;
                     c.flag_style = 0;
+                    c.nofile_limit = 0;
                 }
                 6 => c.p_layout = 0,
                 0 => c.flag_n = false,
